@@ -62,11 +62,11 @@ theorem post_import_ids_continue (strict : Bool) (l : Ledger) (op : Op) (hu : l.
 where
   C16_seq (strict : Bool) (s : State) (op : Op) : SeqLe s.seq (step strict s op).1.seq := by
     unfold step
-    rcases forgeLog_ending strict op none false s with ⟨_, hs, _⟩ | ⟨st0, st, log, hn, f', n, _, _, hs0, hrun, hc⟩
+    rcases forgeLog_ending strict op [] false s with ⟨_, hs, _⟩ | ⟨st0, st, log, hn, f', n, _, _, hs0, hrun, hc⟩
     · exact hs
     · have := run_seq op.now hn f' (runLog strict op.kind op.ik op.ihash op.sv n) st0
       rw [hrun] at this
-      show SeqLe s.seq (forgeLog strict op none false s).state.seq
+      show SeqLe s.seq (forgeLog strict op [] false s).state.seq
       rw [hc.1]
       exact SeqLe.trans hs0 this
 
